@@ -82,6 +82,9 @@ private def codecOf : List String → Option (Codec × List String)
       some (⟨fun | [v] => v.toNat?.map printMagic | _ => none, fun p => outMap toString (parseMagic p)⟩, rest)
   | "bitstr" :: rest =>
       some (⟨fun | [b] => (binArg b).map printBitString | _ => none, fun p => outMap binOut (parseBitString p)⟩, rest)
+  | "anycast" :: rest =>
+      some (⟨fun | [a] => (anyArg a).bind fun o => o.map printAnycastJson | _ => none,
+             fun p => outMap (fun a => anyOut (some a)) (parseAnycastJson p)⟩, rest)
   | "cell" :: rest =>
       some (⟨fun _ => none, fun p => outMap (fun (t, r) => CellFmt.canonString t [r]) (parseCellJson p)⟩, rest)
   | "anycell" :: rest =>
